@@ -100,6 +100,14 @@ def rules():
           ('empty @is_you() { sleep(1); debug(); progress(); write(1); }', True), ('empty @is_you() { sleep(true); }', False),
           ('empty @is_you() { debug(1); }', False), ('empty f() { return; }\nint g = 1;\nempty @is_you() { f(); }', True),
           ('return;\nempty @is_you() { }', False)]
+    # constant sources with constant indices at and around the ends: always accepted (the bounds check is a run-time matter), in
+    # value position, under a dead branch, and - for strings and const arrays - rejected as assignment targets
+    for srcx, n in (('"abc"', 3), ('""', 0), ('CS', 2), ('CA', 3), ('[7, 8, 9]', 3), ('"a"', 1)):
+        for i in (-1, 0, n - 1, n, n + 1, 255, 256):
+            R.append(('const string CS = "hi"; const int[] CA = [1, 2, 3];\nempty @is_you() { if (CA.length > 7) { write(%s[%d] is int); } write(1); }' % (srcx, i), True))
+        R.append(('const string CS = "hi"; const int[] CA = [1, 2, 3];\nempty @is_you() { write(%s[\'\\x01\'] is int); write(%s.length); }' % (srcx, srcx), True))
+        if srcx != '[7, 8, 9]':
+            R.append(('const string CS = "hi"; const int[] CA = [1, 2, 3];\nempty @is_you() { %s[%d] = 1; }' % (srcx, n), False))
     R += [(t, False) for t in frontend.empty_value_programs()]
     R += scope_rules()
     R += spec_rules()
